@@ -108,6 +108,7 @@ theorem prepare_ok (snap : Ring) (op : Op) (txs : List Tx) (ho : OpOK op) (h : p
   | addKey d => simp [prepare] at h; subst h; intro t ht; simp at ht; subst ht; trivial
   | setCurrent s => simp [prepare] at h; subst h; intro t ht; simp at ht; subst ht; trivial
   | refresh => simp [prepare] at h; subst h; intro t ht; simp at ht
+  | «open» => simp [prepare] at h; subst h; intro t ht; simp at ht
   | setState s st =>
     simp only [prepare] at h
     split at h
@@ -155,7 +156,8 @@ theorem step_txinv (s : St) (i : Nat) (h : TxInv s) : TxInv (step s i) := by
       simp only
       repeat' split
       all_goals simp_all [upd]
-  have keyc : (step s i).commits = s.commits ∨ (step s i).commits = s.commits ++ [⟨i, (s.h i).path, (s.h i).txs⟩] := by
+  have keyc : (step s i).commits = s.commits ∨ (step s i).commits = s.commits ++ [⟨i, (s.h i).path, (s.h i).txs⟩] ∨
+      (step s i).commits = s.commits ++ [⟨i, (s.h i).path, []⟩] := by
     unfold step stepCall
     simp only
     repeat' split
@@ -168,13 +170,18 @@ theorem step_txinv (s : St) (i : Nat) (h : TxInv s) : TxInv (step s i) := by
     · rw [e] at ht; simp at ht
     · exact prepare_ok _ op _ (h.todo j op hop) e t ht
   · intro c hc t ht
-    rcases keyc with e | e
+    rcases keyc with e | e | e
     · rw [e] at hc; exact h.commits c hc t ht
     · rw [e] at hc
       simp at hc
       rcases hc with hc | hc
       · exact h.commits c hc t ht
       · subst hc; exact h.txs i t ht
+    · rw [e] at hc
+      simp at hc
+      rcases hc with hc | hc
+      · exact h.commits c hc t ht
+      · subst hc; simp at ht
 
 
 theorem run_txinv (s : St) (sched : List Nat) (h : TxInv s) : TxInv (run s sched) := by
